@@ -565,7 +565,19 @@ fn gen_content(rng: &mut Rng, big: bool) -> Content {
                 let mut combos = rp_combos(kind, h, k);
                 rng.shuffle(&mut combos);
                 let w = gen_w(rng);
-                if rng.chance(1, 2) {
+                if rng.chance(1, 3) {
+                    // all present, weights equal except one that differs by one ulp
+                    // (0.5 vs 0.50000006): not "equal weight", so not a rank-pair token
+                    let base = if w == 0 { 0.5f32.to_bits() } else { w };
+                    for cb in &combos {
+                        c.insert(*cb, base);
+                    }
+                    let near = if f32::from_bits(base) >= 1.0 { base - 1 } else { base + 1 };
+                    c.insert(combos[0], near);
+                    if rng.chance(1, 2) {
+                        c.insert(combos[combos.len() - 1], near);
+                    }
+                } else if rng.chance(1, 2) {
                     // all present, one with another weight
                     for cb in &combos {
                         c.insert(*cb, w);
